@@ -343,6 +343,12 @@ def _instances(tier):
         if not quick:
             yield _mk("kFlowDecompCycles", list(reversed(E)), "int", 1)
             yield _mk("kMinPathErrorCycles", E, "int", 1)
+    # the minimum decomposition re-uses a weight (4 paths 1,2,2,10) while the guessed-weights model may use each distinct flow value once (5 paths):
+    # the shortcut's answer must not be taken for the minimum
+    yield _mk("MinFlowDecomp", [["s", "p", 5], ["s", "q", 10], ["p", "a", 1], ["p", "b", 4], ["q", "b", 10], ["a", "c", 1], ["b", "c", 2], ["b", "d", 12], ["c", "t", 3], ["d", "t", 12]], "int")
+    # a chain long enough for the scanning window (20 nodes) whose last window boundary cuts through an IGNORED diamond
+    CH = [["v%d" % i, "v%d" % (i + 1), 5] for i in range(19)] + [["v19", "v20", 3], ["v19", "x", 2], ["x", "v20", 2], ["v20", "v21", 5]]
+    yield _mk("MinFlowDecomp", CH, "int", ign=[["v19", "v20"], ["v19", "x"], ["x", "v20"]])
     # a long, narrow DAG so that the subgraph-scanning lower bound (window of 20 nodes) actually runs
     for reps, tail in ((8, 2), (9, 3)):
         E, prev = [], "a0"
